@@ -15,6 +15,13 @@ pub fn units(tier: &str, _seed: u64) -> Vec<String> {
         v.push(unit(&[("mix", m), ("n", "1"), ("extra", "nepb")]));
         v.push(unit(&[("mix", m), ("n", "1"), ("extra", "calgas")]));
     }
+    // the boiler whose output is declared also heats (same system id: consumption and output of another service)
+    v.push(unit(&[("mix", "bioout"), ("n", "1"), ("extra", "samesys")]));
+    v.push(unit(&[("mix", "bioout"), ("n", "1"), ("extra", "calgas")]));
+    // scaling the whole building (by a power of two: exact)
+    for m in ["hppv", "st", "bioout", "biored1"] {
+        v.push(unit(&[("mix", m), ("n", "1"), ("extra", "scale"), ("scale", "1")]));
+    }
     if tier == "thorough" {
         for m in MIXES {
             v.push(unit(&[("mix", m), ("n", "2"), ("extra", "both")]));
@@ -25,7 +32,8 @@ pub fn units(tier: &str, _seed: u64) -> Vec<String> {
 
 /// the building of a mix: (components text, closed form of the fraction or None when an error is expected)
 fn build(mix: &str, n: usize, extra: &str) -> (String, Option<F>) {
-    let e = |nm: &str, t: usize| input(&format!("{}_{}", nm, t), Dom::EnergyPos);
+    let sc = if extra == "scaled" { k(4.0) } else { k(1.0) };
+    let e = |nm: &str, t: usize| sc * input(&format!("{}_{}", nm, t), Dom::EnergyPos);
     let sum = |nm: &str| -> F { <F as Scalar>::sum((0..n).map(|t| e(nm, t))) };
     let row = |nm: &str| -> String { (0..n).map(|t| format!("{}", e(nm, t))).collect::<Vec<_>>().join(", ") };
     let rowf = |f: &dyn Fn(usize) -> F| -> String { (0..n).map(|t| format!("{}", f(t))).collect::<Vec<_>>().join(", ") };
@@ -114,6 +122,9 @@ fn build(mix: &str, n: usize, extra: &str) -> (String, Option<F>) {
     if extra == "calgas" || extra == "both" {
         s.push_str(&format!("CONSUMO, CAL, GASOLEO, {}\n", row("xc")));
     }
+    if extra == "samesys" {
+        s.push_str(&format!("3, CONSUMO, CAL, BIOMASA, {}\n3, SALIDA, CAL, {}\n", row("xb"), rowf(&|t| k(0.75) * e("xb", t))));
+    }
     (s, closed)
 }
 
@@ -157,7 +168,13 @@ pub fn scenario(u: &Unit) -> String {
             } else {
                 ob("independent-of-k_exp.evaluates", f());
             }
-            if u.get("extra") != "none" {
+            if u.get("extra") == "scale" {
+                let (scaled_text, _) = build(u.get("mix"), n, "scaled");
+                match run(&scaled_text, kexp) {
+                    Ok((Ok(xs), _)) => ob_via("independent-of-scale", "pow2-scaling", x.ident(xs), x.approx(xs, 64.0, k(1.0))),
+                    _ => ob("independent-of-scale.evaluates", f()),
+                }
+            } else if u.get("extra") != "none" {
                 match run(&base_text, kexp) {
                     Ok((Ok(xb), _)) => ob_via("independent-of-other-uses", "same-term", x.ident(xb), x.approx(xb, 64.0, k(1.0))),
                     _ => ob("independent-of-other-uses.evaluates", f()),
